@@ -211,3 +211,20 @@ func sortedKeys(m map[string]bool) []string {
 	sort.Strings(out)
 	return out
 }
+
+// whereAmI: call chain (innermost first, 4 frames) of the current goroutine, for diagnostics.
+func (in *Interp) whereAmI() string {
+	g := in.cur
+	if g == nil {
+		return "?"
+	}
+	var parts []string
+	for fr := g.top; fr != nil && len(parts) < 5; fr = fr.caller {
+		if fr.Fn == nil {
+			continue
+		}
+		pos := in.posOf(fr)
+		parts = append(parts, fmt.Sprintf("%s (%s:%d)", fr.Fn.String(), relRepo(pos.Filename), pos.Line))
+	}
+	return strings.Join(parts, " <- ")
+}
